@@ -22,11 +22,15 @@ func init() {
 		Rule:        "one run = 2-3 real brokers on the simulated mesh; the tape interleaves Swarm.SendTo calls (messages of tape-chosen size, ids created by message.New at that simulated instant) to 1-2 peers with clock advances of 1 ns .. 35 s (5 ms flush of the peer queue, emitter's 5 s update that keeps a peer active, inactivity past 30 s after a partition), link loss and heal; every payload handed to GossipUnicast is captured, decoded with DecodeFrame and concatenated per destination: it must equal, in order and once each, the messages for which SendTo returned nil (id, channel, payload, ttl unchanged). Along the way every created id must give back its ssid and the simulated second, ids created later for a channel must sort before earlier ones, no two ids are equal, and Frame.Split at tape-chosen bounds must keep head ++ tail = frame with the head below the bound. non-trivial = >= 5 messages reached the transport; distinct = distinct canonical logs",
 		Real:        []string{"cluster.Swarm.SendTo / findPeer / update", "cluster.Peer (Send, swap, processSendQueue)", "message.NewID / ID accessors", "message.Frame (Encode, DecodeFrame, Split)"},
 		Stub:        []string{"weaveworks/mesh (simmesh: GossipUnicast capture)", "clock (synctest)"},
-		Assumptions: []string{"senders are interleaved with the flush at the granularity of whole SendTo calls (one simulator goroutine); truly parallel id creation and parallel senders are out of reach (DESIGN.md 9)"},
+		Assumptions: []string{"main campaign: senders are interleaved with the flush at the granularity of whole SendTo calls (one simulator goroutine); parallel campaign (1 run in 5): 2-3 sender goroutines and the flush task interleaved at the atomic counter of NewID and the mutex boundaries of cluster.Peer"},
 	})
 }
 
 func runC19(c *kernel.Ctx) {
+	if c.Params["campaign"] != "single" && (c.Params["campaign"] == "parallel" || c.Tape.Chance(1, 5)) {
+		runC19Parallel(c)
+		return
+	}
 	defer func() { mesh.Net = nil }()
 	t := c.Tape
 	c.SleepToEpoch()
